@@ -95,6 +95,33 @@ Theorem wrap_attrs :
 Proof. exact wrap_attrs_fact. Qed.
 Print Assumptions wrap_attrs.
 
+(* ---- documents in the four markups and error items are neutral at every line end ---- *)
+From Servitor Require Import Html Gemtext Plaintext.
+From Servitor.Facts Require Import HtmlFacts MarkupFacts.
+
+Theorem render_neutral :
+  forall (col : colors) (ns : list node) (w : Z),
+  colors_ok col -> neutral_b (fst (render_with_links col ns w)) = true.
+Proof. exact render_neutral_fact. Qed.
+Print Assumptions render_neutral.
+
+Theorem gem_render_neutral :
+  forall (col : colors) (t : text) (w : Z),
+  colors_ok col -> clean t -> neutral_b (fst (gem_render_with_links col t w)) = true.
+Proof. exact gem_render_neutral_fact. Qed.
+Print Assumptions gem_render_neutral.
+
+Theorem plain_render_neutral :
+  forall (col : colors) (t : text) (w : Z),
+  colors_ok col -> clean t -> neutral_b (fst (plain_render_with_links col t w)) = true.
+Proof. exact plain_render_neutral_fact. Qed.
+Print Assumptions plain_render_neutral.
+
+Theorem problem_neutral :
+  forall (col : colors) (msg : text), colors_ok col -> neutral_b (problem col msg) = true.
+Proof. exact problem_neutral_fact. Qed.
+Print Assumptions problem_neutral.
+
 Example c14_example :
   display (apply (apply [97; 10; 98]%N [49]%N) [52]%N)
   = ([(97, [[52]; [49]]); (10, []); (98, [[52]; [49]])]%N, []).
